@@ -426,6 +426,14 @@ func (m *c10Mon) checkParser(c *ctx, w *hWorld, sr *stepResult, hist []string, f
 		if d, bad := mapsDiffer(map[string]*big.Int{}, balanceDiff(pre, post, cs.Caller)); bad {
 			mismatch("parser-vs-ledger-self", fmt.Sprintf("%s to the caller itself changed its balances: %s", cs.Fn, d))
 		}
+		// debit and credit cancel on one account, but the debit must have been possible: what the contract is told it received was held
+		if pa := acctOf(pre, cs.Caller); pa != nil {
+			for k, v := range rep {
+				if have := balanceOf(pa, k); have.Cmp(v) < 0 {
+					mismatch("parser-vs-ledger-self", fmt.Sprintf("%s to the caller itself accepted: the parser reports %s of key %x received, the account held %s", cs.Fn, v, k, have))
+				}
+			}
+		}
 	} else {
 		if senderSide {
 			deb := balanceDiff(pre, post, cs.Caller)
